@@ -300,10 +300,13 @@ class UnifiedRTFEncoder(EncodingStrategy):
         show_source_on_all = document.rtf_page.page_source == "all"
 
         # Build
+        # The colour table starts on its own line, as in table documents, so that
+        # assemble_rtf (which skips the header line by line) never cuts inside it.
+        color_table = self.encoding_service.encode_color_table(document)
         parts = [
             self.encoding_service.encode_document_start(),
             self.encoding_service.encode_font_table(),
-            self.encoding_service.encode_color_table(document),
+            "\n" + color_table if color_table else color_table,
             "\n",
             self.encoding_service.encode_page_header(
                 document.rtf_page_header, method="line"
